@@ -2,6 +2,7 @@
 """Prints the markdown table of DESIGN.md section 0.7 from /verif/seeded/*/meta.json."""
 import json, glob, os, re
 rows = []
+stats = []
 for f in sorted(glob.glob('/verif/seeded/*/meta.json')):
     m = json.load(open(f))
     runs = m['check_runs']
@@ -21,7 +22,14 @@ for f in sorted(glob.glob('/verif/seeded/*/meta.json')):
     by = ', '.join(names)
     conf = m['confirmed']
     ok = conf['existing_tests_pass_with_patch'] and conf['demo_fails_with_patch'] and conf['demo_passes_without_patch']
+    stats.append((2 if '-n' in m['change'] else 1, bool(first and first['caught']), bool(last and last['caught'])))
     rows.append('| %s | %s | %s | %s | %s | %s |' % (m['change'], m['needs_to_manifest'].replace('|', '/'), 'yes' if ok else 'no (see meta.json)', v(first), v(last), by.replace('|', '/')))
+def rnd(c): return 2 if '-n' in c else 1
+for r in (1, 2):
+    rs = [x for x in stats if x[0] == r]
+    if rs:
+        print('Round %d: %d changes; caught in the first run %d; caught now %d.' % (r, len(rs), sum(1 for x in rs if x[1]), sum(1 for x in rs if x[2])))
+print()
 print('| change | what it is and what it needs to manifest | confirmed | first run | now | caught by |')
 print('|---|---|---|---|---|---|')
 print('\n'.join(rows))
